@@ -180,6 +180,26 @@ def r1(ctx, lib, wt, rh, rp):
     if te is not None and fe is not None and ts8 is not None and fs8 is not None:
         ok = bool(te.calls(r'arg::to_stfu8$')) and bool(fe.calls(r'arg::from_stfu8$')) and bool(ts8.calls(r'^stfu8::encode_u8$')) and bool(fs8.calls(r'^stfu8::decode_u8$'))
         ctx.check(ok, rule, 'path::Path|stfu8-pair', te.where(), 'escaped string = stfu8::encode_u8 / decode_u8 over the raw bytes', 'to/from_escaped_string are not an stfu8 encode/decode pair')
+        # ... on every path: no result of these four functions is produced without passing the codec call
+        for body_, rx, what in ((te, r'arg::to_stfu8$', 'encoder'), (fe, r'arg::from_stfu8$', 'decoder'), (ts8, r'^stfu8::encode_u8$', 'encoder'), (fs8, r'^stfu8::decode_u8$', 'decoder')):
+            via = {c.bb for c in body_.calls(rx)}
+            if not via:
+                continue
+            early = body_.reachable(0, avoid=via) | {0}
+            bypass = None
+            for bi in sorted(early - via):
+                blk = body_.blocks[bi]
+                if blk['cleanup']:
+                    continue
+                for st in blk['stmts']:
+                    if st['p'][0] == 0 and not st['p'][1] and not (st['rv']['k'] == 'agg' and st['rv'].get('variant') == 'Err'):
+                        bypass = body_.where(st['line'])
+                t = blk['term']
+                if t['k'] == 'call' and t.get('dest') and t['dest'][0] == 0 and not re.search(r'FromResidual', t['f'].get('path') or ''):
+                    bypass = body_.where(t['line'])
+            ctx.check(bypass is None, rule, body_.path + '|always-through-codec', bypass or body_.where(), 'every result of %s passes the stfu8 %s' % (body_.path.rsplit('::', 1)[-1], what),
+                      'a result of %s is produced on a path that does not pass the stfu8 %s (a "fast path" for plain strings): the escape character itself - a backslash in a printable ASCII name - is then '
+                      'written raw but decoded as an escape (`f\\x41` comes back as `fA`, `back\\slash` is rejected), or the reverse' % (body_.path.rsplit('::', 1)[-1], what))
     else:
         ctx.missing(rule, 'to_escaped_string / from_escaped_string / to_stfu8 / from_stfu8')
 
